@@ -326,10 +326,15 @@ func checkC05(c *Check) {
 	headersOwnBacking(c, "C05.R5", R)
 	storesReportFailedRemoval(c, "C05.R2")
 	cookieDecoderComplete(c, "C05.R2")
+	redirectExitsPassRemoval(c, "C05.R1", R)
 	// the ids handed out are new: every draw is fresh CSPRNG output that is only read afterwards (C06.R1) — a generator
 	// that replays a pool of bytes re-issues ids other clients still hold
 	if c.ID == "C05" {
 		importObls(c, "C06", checkC06, "C05.R1", func(o *Obligation) bool { return strings.HasPrefix(o.Key, "C06.R1/") })
+		// a new id starts with an empty session: session objects are freshly allocated, never recycled (C10.R2)
+		importObls(c, "C10", checkC10, "C05.R3", func(o *Obligation) bool {
+			return strings.HasPrefix(o.Key, "C10.R2/created-write") || strings.HasPrefix(o.Key, "C10.R2/insert-only-when-absent")
+		})
 	}
 
 	// ---- R6: the cookie call under LogoutMatch true has timeout 0 and a constant value
@@ -516,4 +521,31 @@ func cookieNameIsInjective(c *Check, rule string, R *Roles) {
 		c.Obl(bad == "", rule, fmt.Sprintf("cookie-name-injective/return#%d", i+1), P.Pos(instrPos(r)), "cookie name = constants + the configured prefix as it is",
 			"the cookie name contains "+bad+" instead of the configured prefix itself: different prefixes can map to one cookie name, and those filters then honour and remove each other's sessions")
 	}
+}
+
+// redirectExitsPassRemoval: whenever the login-redirect helper is handed a presented session id, it does not
+// return — whatever it answers — before RemoveSession was called for that id: an early answer in front of the
+// removal (a 401 for scripted requests, a maintenance page) leaves the stale session, with its rejected or
+// consumed refresh token, in the store for the next request to find.
+func redirectExitsPassRemoval(c *Check, rule string, R *Roles) {
+	P := c.P
+	rd := R.Redirect
+	if !c.Anchor(rule, "login-redirect helper", rd != nil && len(rd.Blocks) > 0 && len(rd.Blocks[0].Instrs) > 0) {
+		return
+	}
+	var rm ssa.CallInstruction
+	for _, ci := range callsTo(rd, idStoreIface+".RemoveSession") {
+		rm = ci
+	}
+	if !c.Anchor(rule, "RemoveSession call in the login-redirect helper", rm != nil) {
+		return
+	}
+	old := callArgs(rm)[1]
+	ff := FactsOf(rd)
+	emptyOld := func(p, q *ssa.BasicBlock) bool {
+		return ff.OnEdge(p, q).StrEmpty(old)
+	}
+	hit := reachAvoidingEdges(rd.Blocks[0].Instrs[0], isReturn, func(i ssa.Instruction) bool { return i == ssa.Instruction(rm) }, emptyOld)
+	c.Obl(hit == nil, rule, "redirect-exits-pass-removal", P.Pos(rm.Pos()), "with a presented session id every exit of the login-redirect helper lies behind RemoveSession",
+		"the login-redirect helper can return at "+posOf(P, hit)+" without having called RemoveSession although a session id was presented: the stale session survives the failed refresh")
 }
